@@ -578,6 +578,20 @@ fn opt_idx(s: &str) -> Option<Option<usize>> {
     }
 }
 
+/// what `undo` re-does (see the Lean driver)
+pub enum Ghost {
+    Sym(u32, Vec<u128>, usize),
+    Prec(u32),
+}
+
+fn undo_one<C: ChainPrec>(d: &mut Dyn<C::W, C::S>, ghost: &mut Vec<Ghost>) -> String {
+    match ghost.pop() {
+        None => "empty".into(),
+        Some(Ghost::Sym(b, cdf, s)) => C::enc_sym(d, b, &cdf, s).unwrap_or_else(|| "unsupported".into()),
+        Some(Ghost::Prec(q)) => C::cp(d, 0, q).unwrap_or_else(|| "unsupported".into()),
+    }
+}
+
 fn run_hist<C: ChainPrec>(segs: &[Vec<&str>], p0: u32) -> String {
     let init = &segs[1];
     let ctor = |kind: u32, ws: &str| -> Option<Option<Result<Dyn<C::W, C::S>, ()>>> {
@@ -616,13 +630,40 @@ fn run_hist<C: ChainPrec>(segs: &[Vec<&str>], p0: u32) -> String {
         Some(Some(Ok(d))) => d,
     };
     let mut stash: Vec<u128> = Vec::new();
+    let mut ghost: Vec<Ghost> = Vec::new();
     let mut snaps: Vec<(u32, usize, usize, u128, u128)> = Vec::new();
     let mut outs: Vec<String> = vec!["ok".into()];
     for seg in &segs[2..] {
+        let mut dead = false;
         let r = guarded(|| -> Option<String> {
             let uns = || "unsupported".to_string();
             Some(match seg.as_slice() {
-                ["dec", b, cdf] => C::dec(&mut d, parse_hex(b)? as u32, &parse_list(cdf)?).unwrap_or_else(uns),
+                ["dec", b, cdf] => {
+                    let b = parse_hex(b)? as u32;
+                    let cdf = parse_list(cdf)?;
+                    let o = C::dec(&mut d, b, &cdf).unwrap_or_else(uns);
+                    if let Some(s) = parse_hex(&o) {
+                        ghost.push(Ghost::Sym(b, cdf, s as usize));
+                    }
+                    o
+                }
+                ["undo"] => undo_one::<C>(&mut d, &mut ghost),
+                ["undoall"] => {
+                    let mut n = 0u128;
+                    loop {
+                        if ghost.is_empty() {
+                            break format!("{:x} ok", n);
+                        }
+                        match guarded(|| undo_one::<C>(&mut d, &mut ghost)) {
+                            Ok(o) if o == "ok" => n += 1,
+                            Ok(o) => break format!("{:x} {}", n, o),
+                            Err(class) => {
+                                dead = true;
+                                break format!("{:x} {}", n, class);
+                            }
+                        }
+                    }
+                }
                 ["enc", b, cum, pr] => {
                     C::enc(&mut d, parse_hex(b)? as u32, Some((parse_hex(cum)?, parse_hex(pr)?))).unwrap_or_else(uns)
                 }
@@ -644,8 +685,16 @@ fn run_hist<C: ChainPrec>(segs: &[Vec<&str>], p0: u32) -> String {
                     if form > 2 {
                         return None;
                     }
-                    C::dec_batch(&mut d, parse_hex(b)? as u32, form, &parse_list(cdf)?, parse_hex(n)? as usize, opt_idx(err_at)?)
-                        .unwrap_or_else(uns)
+                    let b = parse_hex(b)? as u32;
+                    let cdf = parse_list(cdf)?;
+                    let o = C::dec_batch(&mut d, b, form, &cdf, parse_hex(n)? as usize, opt_idx(err_at)?)
+                        .unwrap_or_else(uns);
+                    if let Some(syms) = o.split(' ').next().and_then(parse_list) {
+                        for s in syms {
+                            ghost.push(Ghost::Sym(b, cdf.clone(), s as usize));
+                        }
+                    }
+                    o
                 }
                 [op @ ("cp" | "incp" | "decp"), q] => {
                     let q = parse_hex(q)? as u32;
@@ -662,7 +711,12 @@ fn run_hist<C: ChainPrec>(segs: &[Vec<&str>], p0: u32) -> String {
                     if !legal {
                         uns()
                     } else {
-                        C::cp(&mut d, kind, q).unwrap_or_else(uns)
+                        let old = d.p;
+                        let o = C::cp(&mut d, kind, q).unwrap_or_else(uns);
+                        if o == "ok" {
+                            ghost.push(Ghost::Prec(old));
+                        }
+                        o
                     }
                 }
                 ["reimport", k] => {
@@ -733,7 +787,12 @@ fn run_hist<C: ChainPrec>(segs: &[Vec<&str>], p0: u32) -> String {
             })
         });
         match r {
-            Ok(Some(s)) => outs.push(s),
+            Ok(Some(s)) => {
+                outs.push(s);
+                if dead {
+                    break;
+                }
+            }
             Ok(None) => {
                 outs.push("bad-op".into());
                 break;
